@@ -6,7 +6,8 @@ X64 = True
 RULE = ('models: generator forests of 1-6 links (free / world-attached roots, '
         '1-3 hinge/slide joints per link with arbitrary axes, anchors, body and '
         'geom frames, limits, passive terms, actuators) + a single-joint-at-'
-        'origin sub-workload and deep chains; 8 random states per model (q in '
+        'origin sub-workload, deep chains and EVERY ordered forest shape with '
+        '1-6 links (196 shapes, exhaustive); 8 random states per model (q in '
         '[-2,2], unit root quaternions, qd in [-1,1]) + the default pose at '
         'rest + a random pose at rest. One event = one link compared at one '
         'state (pose; velocity where claimed). distinct = (topology, stack '
@@ -36,6 +37,13 @@ def plan(tier, seed):
   per2 = 3 if tier == 'quick' else 11
   jobs += [{'kind': 'fk', 'profile': 'single_origin', 'seed': seed,
             'first': 100000 + i, 'count': per2} for i in range(0, n2, per2)]
+  # every ordered forest shape with 1..6 links (196 = sum of Catalan numbers)
+  from vf import gen
+  shapes = [p for n in range(1, 7) for p in gen.all_forests(n)]
+  per3 = 14
+  jobs += [{'kind': 'fk', 'profile': 'topology', 'seed': seed,
+            'first': 200000 + i, 'count': len(shapes[i:i + per3]),
+            'shapes': shapes[i:i + per3]} for i in range(0, len(shapes), per3)]
   return jobs
 
 
@@ -47,7 +55,7 @@ def floors(tier):
           'claimed_velocity_hinge': 12 * k, 'claimed_velocity_free': 40 * k,
           'claimed_velocity_child_of_moving_parent': 20 * k,
           'unclaimed_link_velocity_compared': 300 * k,
-          'deep_chain_models': 8 * k}
+          'deep_chain_models': 8 * k, 'forest_shapes_enumerated': 196}
 
 
 def run(job, mon):
@@ -58,7 +66,15 @@ def run(job, mon):
 
   for c in range(job['first'], job['first'] + job['count']):
     rng = np.random.default_rng([job['seed'], c, 1])
-    if job['profile'] == 'single_origin':
+    if job['profile'] == 'topology':
+      shape = job['shapes'][c - job['first']]
+      # half of the shapes with simple joints (velocities claimed on every
+      # link), half with arbitrary stacks
+      simple = (c + job['seed']) % 2 == 0
+      spec = gen.gen_model(rng, parents=shape, single_origin=simple,
+                           actuators=False)
+      mon.count('forest_shapes_enumerated')
+    elif job['profile'] == 'single_origin':
       spec = gen.gen_model(rng, single_origin=True,
                            stack_kinds=['any', 'slide', 'hinge'][c % 3])
     elif c % 5 == 4:
